@@ -269,7 +269,11 @@ pub fn generate(seed: u64, w: &World, with_big: bool, with_stalls: bool) -> Valu
         "arg_forms": rng.next_u64() & 0x7ff,
         // fault on the storage side: the output target (file or stdout) is a full device that
         // accepts no bytes (/dev/full)
-        "sink": match rng.below(50) { 0 | 1 => "dev-full", 2 => "is-dir", _ => "normal" },
+        // ... or a directory; or the file system refuses to let the file grow beyond
+        // `fsize_limit` bytes (RLIMIT_FSIZE with SIGXFSZ ignored: the write that crosses the limit
+        // is cut short, the next one fails with EFBIG - a full disk in miniature)
+        "sink": match rng.below(50) { 0 | 1 => "dev-full", 2 => "is-dir", 3 | 4 => "fsize", _ => "normal" },
+        "fsize_limit": *rng.pick(&[0u64, 1, 100, 4096, 8192, 65536]),
         "env": *rng.pick(&["clean", "clean", "rust-log-trace", "rust-log-cli-info", "locale-tz", "rust-log-trace"]),
         "fixture": fx.name,
         "script": script,
